@@ -22,6 +22,8 @@ pub struct Actor {
     pub cap: usize,
     pub pol: u8,
     pub default_api: bool,
+    /// channeled: the subscriber is slow (a backlog builds up in its channel)
+    pub slow: bool,
 }
 
 #[derive(Clone, Debug)]
@@ -71,8 +73,8 @@ pub fn gen(rng: &mut Rng, tiny: bool, focus: &str) -> DCfg {
         };
         let at_build = rng.chance(1, 2);
         let start_after = if at_build { 0 } else { rng.below(total) };
-        let unsub_after = if kind <= 1 && rng.chance(2, 3) { Some(rng.range(start_after, total)) } else { None };
-        actors.push(Actor { kind, at_build, start_after, unsub_after, double_unsub: rng.chance(1, 3), cap: rng.range(1, 4) as usize, pol: rng.below(3) as u8, default_api: rng.chance(1, 8) });
+        let unsub_after = if kind <= 1 && rng.chance(2, 3) { Some(if rng.chance(1, 3) { total } else { rng.range(start_after, total) }) } else { None };
+        actors.push(Actor { kind, at_build, start_after, unsub_after, double_unsub: rng.chance(1, 3), cap: rng.range(1, 4) as usize, pol: rng.below(3) as u8, default_api: rng.chance(1, 8), slow: rng.chance(1, 3) });
     }
     // at most one iterator per scenario keeps the rendezvous channels from serialising everything
     let mut seen_iter = false;
@@ -89,9 +91,9 @@ pub fn gen(rng: &mut Rng, tiny: bool, focus: &str) -> DCfg {
     let slow_consumer_ms = if !has_iter || stall.is_some() {
         0
     } else if cfg!(miri) {
-        if rng.chance(1, 2) { 1500 } else { 0 }
+        *rng.pick(&[0u64, 1500, 3500])
     } else if !tiny && rng.chance(1, if focus == "C14" { 300 } else { 900 }) {
-        *rng.pick(&[300u64, 700, 1300])
+        *rng.pick(&[300u64, 700, 1300, 3300])
     } else {
         0
     };
@@ -184,6 +186,19 @@ pub fn execute(c: &DCfg, seed: u64) -> W {
             0 => {
                 let (id, sn) = w.add_direct(0, NOGATE, false, a.at_build, false);
                 (id, Some(sn), None, None)
+            }
+            1 if a.slow && !a.default_api => {
+                let (id, sn) = w.add_channeled_sub(0, a.cap, a.pol, a.at_build, |sub| {
+                    sub.hook = Some(Arc::new(|c: &Arc<Ctx>, _st: &St, _a: &Act| {
+                        if !cfg!(miri) {
+                            std::thread::sleep(std::time::Duration::from_micros(60));
+                        }
+                        c.perturb();
+                    }));
+                });
+                let t = w.add_direct(0, NOGATE, false, a.at_build, false);
+                w.set_twin(id, t.0);
+                (id, Some(sn), None, Some(t))
             }
             1 => {
                 let (id, sn) = w.add_channeled(0, a.cap, if a.default_api { POL_BLOCK } else { a.pol }, NOGATE, false, a.at_build, a.default_api);
@@ -281,6 +296,7 @@ pub fn execute(c: &DCfg, seed: u64) -> W {
                     }
                 };
                 let (id, sn, it, twin) = reg;
+                let mut replacement = None;
                 registered.add(1);
                 if let Some(mut it) = it {
                     // iterator consumer: read to the end, then twice more, then drop
@@ -319,13 +335,22 @@ pub fn execute(c: &DCfg, seed: u64) -> W {
                     w.ctx.perturb();
                     w.unsubscribe(0, id, sn.as_ref());
                     if a.double_unsub {
+                        // a stale handle used again later, after other subscribers have come and gone:
+                        // this thread registers a replacement right away (it tends to be allocated
+                        // where the released subscriber was)
+                        if a.kind == 0 {
+                            replacement = Some(w.add_direct(0, NOGATE, false, false, false));
+                        }
+                        returned.wait_at_least((after + 3).min(total), 30);
                         w.ctx.perturb();
                         w.unsubscribe(0, id, sn.as_ref());
                     }
                 }
-                (sn, twin)
+                (sn, twin, replacement)
             }).unwrap();
-            if a.kind == 3 {
+            // iterator consumers end with the stream; an unsubscribe scheduled for the very end of the run
+            // is left to race with stop()
+            if a.kind == 3 || (a.unsub_after.map(|x| x >= total).unwrap_or(false) && c.cross_unsub.is_none() && c.stall.is_none()) {
                 consumers.push(h);
             } else {
                 ahs.push(h);
@@ -685,10 +710,8 @@ pub fn c14(h: &Hist, s: u8, v: &mut Verdicts) {
         return;
     }
     v.evaluated.insert("C14");
-    if stop_timed_out(h, s) {
-        v.inconcl("C14", "stop() hit its timeout".into());
-        return;
-    }
+    // a stop() that ran into its timeout (slow consumer) does not change what the iterator owes: the
+    // reducer finishes in the background and the stream still runs to its end
     let sr = match first_stop(h, s) {
         Some(x) => x.clone(),
         None => return,
@@ -720,7 +743,12 @@ pub fn c14(h: &Hist, s: u8, v: &mut Verdicts) {
                 continue;
             }
             match pos.get(&e.a) {
-                None => v.fail("C14", format!("store {}: iterator {} yielded {} which is not a notifying action (seq {})", s, si.id, id_str(e.a), e.seq)),
+                None => {
+                    // whether a vetoed action still notifies is left unspecified: accept it in place
+                    if !sh.acts.get(&e.a).map(|ar| ar.vetoed()).unwrap_or(false) {
+                        v.fail("C14", format!("store {}: iterator {} yielded {} which is not a notifying action (seq {})", s, si.id, id_str(e.a), e.seq));
+                    }
+                }
                 Some(&p) => {
                     if e_stream[p].1 != e.x || e.r != 1 {
                         v.fail("C14", format!("store {}: iterator {} yielded {} with a state that is not the one this action produced (seq {})", s, si.id, id_str(e.a), e.seq));
@@ -840,5 +868,6 @@ pub fn run(seed: u64, tiny: bool, focus: &str) -> Outcome {
     c16(&h, 0, &mut v);
     c03(&h, 0, &mut v);
     c07(&h, 0, &mut v);
+    crate::fam_b::c04(&h, 0, &mut v, "C04");
     Outcome::new(describe(&c), h, v)
 }
